@@ -13,8 +13,13 @@ edges and interactions, inter-placement edges, and the warnings in both
 directions.
 
 Part `shipped`: random residue sequences instantiated from the charmm blocks,
-mapped to martini3001 with the shipped mappings; only generic validity
-predicates are asserted.
+mapped to martini3001 with the complete shipped mapping collection and the
+arguments bin/martinize2 passes.  The reference descriptions are derived from
+the data of the shipped Mapping objects (fragment, weight table, target block),
+then the same full comparison is applied (it implies the generic predicates:
+weights equal the mapping table under the found placement, edges <=> bonded
+constituents, heavy atoms contribute or are warned about, resids consecutive,
+beads of one placement contiguous and in block order).
 """
 import os
 
@@ -37,17 +42,19 @@ RULE = ('toy: 2-5 residue types (aa block: 1-7 uniquely named atoms, random tree
         'cg block: 1-4 beads + optional bead nobody maps to, bonds/angles on the beads, charge groups, optional resid/resname), '
         'one Mapping per type (one-to-one, many-to-one, atom shared by two beads, zero weight, non-unit weights, unmapped H, '
         'unmapped heavy atom, no mapping at all; built directly or through MappingBuilder; optional weight normalisation), '
-        'in 35% a two-residue mapping (MappingBuilder, block_from = two bonded residues, block_to = two cg residues or one), '
-        'in 30% a second mapping for one type (same atoms = overlap, or the atoms the first leaves out = split residue); molecule = '
+        'in 30% a two-residue mapping (MappingBuilder, block_from = two bonded residues, block_to = two cg residues or one), '
+        'in 30% a second mapping for one type (same atoms = overlap, only its zero-weight atoms, a subtree taken from the first = one residue split over two placements, or any subset); molecule = '
         'residue tree of 1-8 residues (linear 60% / branched) + 0-2 cross links, residue numbers consecutive / with gaps / '
         'permuted / descending / equal for neighbours, node keys sequential / strided / residues reversed / fully shuffled with '
-        'gaps, node insertion order natural / by key / reversed, 12% residues with a missing atom, 10% with a missing or extra '
-        'intra-residue bond; attribute_keep/must/stash drawn (stash contains resid in >= 50%); called as do_mapping, '
+        'gaps, node insertion order natural / by key / reversed, in 25% of the molecules 1 residue in 6 misses an atom and 1 in 6 '
+        'has a missing or extra intra-residue bond; attribute_keep/must/stash drawn (stash contains resid in >= 50%); called as do_mapping, '
         'DoMapping.run_molecule or DoMapping.run_system.  non-trivial = >= 2 placements and at least one of {branch point in the '
         'residue graph, bond between placements that are not neighbours in the output order, atom shared between beads, zero '
         'weight, bead built from no atom, placement order differs from residue order}; distinct by hash.  '
-        'shipped: 1-12 residues from 20 amino acids instantiated from the charmm blocks, joined C-N, optional SG-SG cross link, '
-        'optional missing side-chain atom / missing hydrogens, shuffled keys; mapped to martini3001 with the shipped mappings.')
+        'shipped: 1-12 residues from 20 amino acids instantiated from the charmm blocks, joined C-N (chain breaks 1 in 9), optional '
+        'SG-SG cross link, in 20% one atom of one residue removed, residue numbers with gaps / descending / non-monotone, keys as '
+        'in toy; mapped to martini3001 with all shipped mappings and the attribute arguments of bin/martinize2; same '
+        'non-triviality rule.')
 ASSUMPTIONS = [
     'a mapping fits where its mapped fragment is found as an induced subgraph with equal atom names / residue names / element (when the block states one) and where bonds stay inside / cross residues as in the mapping (doc: workflow 3); residue identity in the input = the resid attribute',
     'placements with the same lowest atom key (only possible when they overlap) may come in either order',
@@ -58,7 +65,8 @@ ASSUMPTIONS = [
     'an attribute that is only in attribute_stash and that the target block does not provide may or may not also be copied without prefix (undocumented); the `_old_` copy is required',
     'when the constituents of a bead disagree on an attribute in keep/must/stash any of their values is accepted and an inconsistent-data warning is required (doc: workflow 3, third bullet)',
     'cases with more than %d placements (disconnected fragments fit on every combination of residues) are skipped' % 24,
-    'reference atoms ([reference atoms] of .mapping files; unused by the shipped data) are not generated',
+    'reference atoms ([reference atoms] of .mapping files; unused by the shipped data, not in the statement) are not generated unless VERIF_C01_REFERENCES=1 (side finding in notes/C01.md)',
+    'modification mappings are not generated (part shipped hands the shipped ones over, but no input atom carries modifications)',
     'resid is never in attribute_keep (the CLI passes it in attribute_stash)',
 ]
 
@@ -922,11 +930,8 @@ def _run_toy(case):
         classes.append('residue-split-over-placements')
     if 'resid' in options['stash']:
         classes.append('stash-resid')
-        resids = [a['resid'] for a in case['atoms']]
         if n_place >= 2 and any(b['choice'].get('_old_resid') != [b['fixed']['resid']] for b in pred.beads):
             classes.append('old-resid-differs')
-    if any(len(p.spec.weights()) != len(p.spec.from_nodes) for p in ordered):
-        pass
     if any(s.normalize for s in specs):
         classes.append('normalized')
     if len({a['resid'] for a in case['atoms']}) < len(set(res_of.values())):
